@@ -928,6 +928,14 @@ func (g *genCtx) generate(cf *ContractFile) (string, error) {
 			seq++
 			cl.FnName = fmt.Sprintf("Zvc_%d_%s_%s", seq, sanitize(c.Target), sanitize(cl.Label))
 			expr, pres := hoist(cl.Expr, "pre")
+			var entries []string
+			if cl.Kind == "invariant" {
+				// entry(E): the value of E when the loop was entered
+				expr, entries = hoist(expr, "entry")
+				for i := range entries {
+					entries[i] = implTransform(entries[i])
+				}
+			}
 			expr, lpends := hoist(expr, "lpend")
 			expr, lps := hoist(expr, "lp")
 			expr = implTransform(expr)
@@ -951,8 +959,20 @@ func (g *genCtx) generate(cf *ContractFile) (string, error) {
 				if err != nil {
 					return "", fmt.Errorf("%s:%d: %v in %q", cf.Path, cl.Line, err, expr)
 				}
+				for _, en := range entries {
+					more, err := freeIdents(en)
+					if err != nil {
+						return "", fmt.Errorf("%s:%d: %v in %q", cf.Path, cl.Line, err, en)
+					}
+					ids = append(ids, more...)
+				}
+				seenID := map[string]bool{}
 				for _, id := range ids {
-					if known[id] || strings.HasPrefix(id, "pre_") || strings.HasPrefix(id, "lp_") || strings.HasPrefix(id, "lpend_") {
+					if seenID[id] {
+						continue
+					}
+					seenID[id] = true
+					if known[id] || strings.HasPrefix(id, "pre_") || strings.HasPrefix(id, "lp_") || strings.HasPrefix(id, "lpend_") || strings.HasPrefix(id, "entry_") {
 						continue
 					}
 					if g.pkg.Scope().Lookup(id) != nil || types.Universe.Lookup(id) != nil || cf.Imports[id] != "" {
@@ -1025,6 +1045,20 @@ func (g *genCtx) generate(cf *ContractFile) (string, error) {
 				cl.Levels = 2
 				if len(lps) > 0 || len(lpends) > 0 {
 					return "", fmt.Errorf("%s:%d: lp() not allowed in invariant", cf.Path, cl.Line)
+				}
+				if len(entries) > 0 {
+					// three levels: entry state of the function, state at loop entry, current state
+					cl.Levels = 3
+					fmt.Fprintf(&w, "func %s%s(%s) func(%s) func(%s) bool {\n\t%s\n", cl.FnName, tdecl, plist(l1), plist(l3), plist(l3), use(l1))
+					for i, p := range pres {
+						fmt.Fprintf(&w, "\tpre_%d := %s\n", i, p)
+					}
+					fmt.Fprintf(&w, "\treturn func(%s) func(%s) bool {\n\t\t%s\n", plist(l3), plist(l3), use(l3))
+					for i, p := range entries {
+						fmt.Fprintf(&w, "\t\tentry_%d := %s\n", i, p)
+					}
+					fmt.Fprintf(&w, "\t\treturn func(%s) bool {\n\t\t\t%s\n\t\t\treturn %s\n\t\t}\n\t}\n}\n", plist(l3), use(l3), expr)
+					break
 				}
 				fmt.Fprintf(&w, "func %s%s(%s) func(%s) bool {\n\t%s\n", cl.FnName, tdecl, plist(l1), plist(l3), use(l1))
 				for i, p := range pres {
